@@ -52,6 +52,8 @@ def r1_one_namespace(ctx):
     for rn in rets:
         v = rn.ast.value
         first = v.elts[0] if isinstance(v, ast.Tuple) and v.elts else v
+        # a result wrapped in something this rule does not know (a record type, a helper) is not judged
+        need(not isinstance(first, ast.Call), 'C01.R1: _test_globals returns the value of a call (`%s`): what travels to the exec sites is not visible structurally' % ctx.src(first))
         if not _aliases_field(rdtg, rn, first, 'self.global_namespace'):
             ok_alias = False
             detail = 'returns `%s`, which is not the field self.global_namespace itself' % ctx.src(first)
@@ -708,6 +710,12 @@ def r6_contiguous_slices(ctx):
     names = [c.args[0].id for (_, c) in calls if c.args and isinstance(c.args[0], ast.Name)]
     need(names, 'C01.R6: no slice starts at a local variable')
     a = max(set(names), key=names.count)
+    # a loop that hands out slices in a way this rule does not know (cuts planned in a list beforehand, ...) is not judged at all
+    for (n, c) in calls:
+        for fr in n.frames:
+            if fr.kind == 'loop' and isinstance(fr.head.ast, ast.For):
+                it_, tg_ = fr.head.ast.iter, fr.head.ast.target
+                need(isinstance(it_, ast.Call) and is_name(it_.func, 'zip') and isinstance(tg_, ast.Tuple), 'C01.R6: slice loop is not `for a, b in zip(X, X[1:])`: %s' % ctx.src(it_))
     for (n, c) in calls:
         if not (c.args and is_name(c.args[0], a)):
             rep.ob('C01.R6', ctx.loc(f, c), ctx.src(c), False,
